@@ -152,7 +152,7 @@ func (ex *Exec) callCommon(st *State, instr ssa.CallInstruction, c *ssa.CallComm
 	}
 	switch {
 	case con != nil && con.Pure && sfn != nil:
-		results = []string{ex.applyPure(st, sfn, con, args)}
+		results = ex.applyPureN(st, sfn, con, args)
 	case con != nil:
 		results = ex.applyContract(st, con, sfn, c, args, argTypes, resTypes, rec)
 	case ex.pureMode:
